@@ -101,7 +101,8 @@ class Ref:
         if op == "wrapx":
             v = R[reg(ins[1])]
             return (("Q", Fraction(v[1])), "X") if K[reg(ins[1])] == "L" and v[0] == "I" else (UNK, "?")
-        if op == "bin":
+        if op in ("bin", "iop"):
+            # `iop`: augmented assignment on a second reference; values are immutable, so it is the plain binary operator
             return self.binop(ins[1], reg(ins[2]), reg(ins[3]))
         if op == "un":
             return self.unop(ins[1], reg(ins[2]))
